@@ -168,7 +168,7 @@ func genStream(r *Rng, prop, phase string, knob bool, pEarly, pErr float64) []*S
 	return []*Scenario{s}
 }
 
-var stdReaders = []string{"bytes.Buffer", "bytes.Buffer", "bytes.Reader", "strings.Reader", "bufio.Reader", "bufio.Reader", "section-advanced", "bytes.Reader-advanced", "os.File"}
+var stdReaders = []string{"bytes.Buffer", "bytes.Buffer", "bytes.Reader", "strings.Reader", "bufio.Reader", "bufio.Reader", "section-advanced", "bytes.Reader-advanced", "os.File", "os.Pipe", "os.File-grown"}
 
 var scribbleKinds = []string{"garbage", "newline", "nul", "data"}
 
@@ -527,6 +527,7 @@ func genTotality(r *Rng, phase string) []*Scenario {
 			s.Writer.FailAt = r.Intn(12)
 			s.Writer.Partial = r.Intn(4)
 			s.Writer.Full = r.Chance(0.25)
+			s.Writer.Err = r.Pick(writerErrKinds)
 		} else {
 			s.Writer.ByteBudget = r.Intn(200)
 		}
@@ -671,17 +672,17 @@ func genSink(r *Rng) []*Scenario {
 				continue // quick tier: every third failure point for the third flavour
 			}
 			out = append(out, &Scenario{Property: "C20", Phase: "fail-at", Doc: doc,
-				Writer: &WriterScn{Flavour: fl, FailAt: j, ByteBudget: -1, Partial: (j % 3), GC: j%29 == 7}})
+				Writer: &WriterScn{Flavour: fl, FailAt: j, ByteBudget: -1, Partial: (j % 3), GC: j%29 == 7, Err: writerErrKinds[(j*5+len(fl)+len(doc))%len(writerErrKinds)]}})
 			if fl != "richwriter" && (tierThorough || (j+len(fl))%2 == 0) {
 				// ... and the same failure point with the full count reported
 				out = append(out, &Scenario{Property: "C20", Phase: "fail-at", Doc: doc,
-					Writer: &WriterScn{Flavour: fl, FailAt: j, ByteBudget: -1, Full: true}})
+					Writer: &WriterScn{Flavour: fl, FailAt: j, ByteBudget: -1, Full: true, Err: writerErrKinds[(j*3+len(fl)+len(doc))%len(writerErrKinds)]}})
 			}
 		}
 	}
 	for i := 0; i < 4 && len(hw.Buf) > 0; i++ {
 		out = append(out, &Scenario{Property: "C20", Phase: "byte-budget", Doc: doc,
-			Writer: &WriterScn{Flavour: r.Pick(writerFlavours), FailAt: -1, ByteBudget: r.Intn(len(hw.Buf))}})
+			Writer: &WriterScn{Flavour: r.Pick(writerFlavours), FailAt: -1, ByteBudget: r.Intn(len(hw.Buf)), Err: r.Pick(writerErrKinds)}})
 	}
 	return out
 }
@@ -697,7 +698,7 @@ func genSinkInterleaved(r *Rng) []*Scenario {
 			if t.Kind != "format" {
 				*t = TaskScn{Kind: "format"}
 				if r.Chance(0.25) {
-					t.Writer = &WriterScn{Flavour: r.Pick(writerFlavours), FailAt: r.Intn(30), ByteBudget: -1, Full: r.Chance(0.25)}
+					t.Writer = &WriterScn{Flavour: r.Pick(writerFlavours), FailAt: r.Intn(30), ByteBudget: -1, Full: r.Chance(0.25), Err: r.Pick(writerErrKinds)}
 				}
 			}
 		}
@@ -1027,6 +1028,10 @@ func evaluate(s *Scenario, st *runStats) (fail *Failure) {
 			if obs.StdWriters > 0 {
 				st.Probes["healthy_run_into_bytes.Buffer_strings.Builder_bufio.Writer"]++
 			}
+			if obs.FileWriters > 0 {
+				st.Probes["run_into_os.File_healthy_closed_and_read_only"]++
+				st.Faults["write_failure_os.File_closed_or_read_only"] += obs.FileWriters
+			}
 			if obs.Fired {
 				if s.Writer.FailAt >= 0 {
 					st.Faults["write_failure_at_index"]++
@@ -1035,6 +1040,9 @@ func evaluate(s *Scenario, st *runStats) (fail *Failure) {
 					}
 				} else {
 					st.Faults["write_failure_byte_budget"]++
+				}
+				if s.Writer.Err != "" {
+					st.Faults["write_failure_error_is_"+s.Writer.Err]++
 				}
 				if s.Writer.Flavour == "richwriter" {
 					st.Probes["richwriter_flavour"]++
